@@ -257,6 +257,30 @@ def run(repo: Repo, rep: Report, tier: str) -> None:
     _borrow17(repo, rep, "C11", "C11-R2", "C17-R7", "library functions called with constant arguments are folded with run-time arithmetic: the bit helpers rely on `1 << pos` for every "
               "pos in 0..31", select=lambda o: "folds '<<'" in o.construct or "folds '>>'" in o.construct or "folds 'AND'" in o.construct or "folds 'OR'" in o.construct or "folds 'XOR'" in o.construct, floor=4)
 
+    # ---------------- R8 ---------------------------------------------------------------
+    rep.rule("C17-R8", "the parser learns where the importing file is: for a file input every front end passes the file's path — absolute, or as given (the parser resolves it against "
+             "the working directory) — as the source name, never a form that has lost the directory (`.name`, `.stem`, basename); the directory is the first place an import is looked up")
+    from ..pipeline import mains as _mains17, compile_funcs as _cfs17
+    n17 = 0
+    DROPS17 = (".name", ".stem", "basename(", ".parts[-1]")
+    for f17 in [m for m, _ in _mains17(repo)] + list(_cfs17(repo)):
+        c17 = _canon(f17)
+        for call17 in calls_in(f17.node):
+            nm17 = call_name(call17)
+            if nm17 not in {cf.name for cf in _cfs17(repo)} | {"parse", "parse_file"}:
+                continue
+            arg = kwarg(call17, "source_name") or kwarg(call17, "filename") or (call17.args[1] if nm17 == "parse" and len(call17.args) > 1 else None)
+            if arg is None:
+                continue
+            for a17 in c17.alts(arg):
+                if a17.startswith("'") or a17 in f17.params:
+                    continue  # literal placeholder for string input, or forwarded parameter
+                n17 += 1
+                lost = [d for d in DROPS17 if d in a17]
+                rep.check(not lost, "C17-R8", f"{f17.short}: source name handed to {nm17} keeps the file's directory", a17[:80] if not lost else
+                          f"`{a17[:80]}` drops the directory: `import helper.facto` in dir/main.facto is then looked up in the working directory — not found, or another file of that name is included", f17.loc(call17))
+    rep.floor("C17-R8", "file-derived source names handed to the parser", n17, 1)
+
 
 
 def _split_entries(s: str) -> list[str]:
